@@ -241,7 +241,7 @@ class GWPCA(BaseModelSingleSet):
     def largest_locally_weighted_components(self):
         comps = self.data["components"]
         idx_max = abs(comps).argmax(self.feature_name)
-        input_features = self.preprocessor.stacker.transformers[0].coords_out["feature"]
+        input_features = self.preprocessor.stacker.transformers[0].coords_out[self.feature_name]
         llwc = input_features[idx_max].drop_vars(self.feature_name)
         llwc.name = "largest_locally_weighted_components"
         return self.preprocessor.inverse_transform_scores(llwc)
